@@ -112,7 +112,7 @@ SIZE_CASES = [
     ("file.CompressedFileHandler", "/testfile.txt.gz"), ("tal.TALFileHandler", "/talsample.html.tal"), ("file.FileHandler", "/zzz.txt"),
     ("mbox.MBoxMessageHandler", "/python-dev.mbox|/MBOX-MESSAGE/1"), ("mbox.MaildirMessageHandler", "/python-dev|/MAILDIR-MESSAGE/1"),
     ("scriptexec.ExecHandler", "/pygopherd/cgitest.sh"), ("url.HTMLURLHandler", "URL:http://example.org/"), ("ZIP.ZIPHandler", "/testdata.zip/pygopherd/ziponly"),
-    ("file.FileHandler", "/testarchive.tar.gz"), ("file.CompressedFileHandler", "/testarchive.tar.gz"), ("ZIP.ZIPHandler", "/testdata2.zip/testfile.txt.gz"), ("ZIP.ZIPHandler", "/symlinktest.zip/subdir/linkedrel.txt"),
+    ("file.FileHandler", "/testarchive.tar.gz"), ("file.CompressedFileHandler", "/testarchive.tar.gz"), ("ZIP.ZIPHandler", "/testdata2.zip/testfile.txt.gz"), ("ZIP.ZIPHandler", "/symlinktest.zip/subdir/linkedrel.txt"), ("ZIP.ZIPHandler", "/testdata2.zip/testarchive.tar"), ("ZIP.ZIPHandler", "/testdata.zip/testfile.txt"),
 ]
 
 
